@@ -285,6 +285,7 @@ class Ctx:
             h = hashlib.sha1(repr(sig).encode()).hexdigest()[:16]
             if h not in self.distinct:
                 self.distinct.add(h)
+        self.last_case = {"sig": repr(sig)[:4000], "sample": sample}
         if sample is not None and len(self.cov["samples"]) < 6:
             self.cov["samples"].append(sample)
 
